@@ -52,6 +52,41 @@ let final_sexp = function
   | Done d -> L [A "done"; canon_doc d]
   | Failed (d, e) -> L [A "failed"; family e; canon_doc d]
 
+let fmt_of_sym = function
+  | A "BARE" -> FBare | A "BOOLEAN" -> FBoolean | A "DEFAULT" -> FDefault | A "DQUOTE" -> FDquote
+  | A "FLOAT" -> FFloat | A "FOLDED" -> FFolded | A "INT" -> FInt | A "LITERAL" -> FLiteral
+  | A "SQUOTE" -> FSquote
+  | x -> failwith ("bad value format " ^ to_string x)
+
+(* float() oracle table: ((s<text> (val <pyval>) | fail) ...) *)
+let fl_of_table (tb : t) : char list -> flres outcome =
+  let items = match tb with L items -> items | x -> failwith ("bad fl table " ^ to_string x) in
+  let tbl = List.map (function
+      | L [k; L [A "val"; v]] -> (str_atom k, FVal (pyval_of_sexp v))
+      | L [k; A "fail"] -> (str_atom k, FFail)
+      | y -> failwith ("bad fl entry " ^ to_string y)) items in
+  fun s0 -> match List.assoc_opt s0 tbl with Some r -> Ok r | None -> Raise OracleMiss
+
+(* literal_eval oracle table, as in drv_search.ml (which is compiled after this file) *)
+let crash_of_name = function
+  | "IndexError" -> IndexError | "TypeError" -> TypeError | "KeyError" -> KeyError
+  | "ValueError" -> ValueError | "AttributeError" -> AttributeError | "ReError" -> ReError
+  | "RecursionError" -> RecursionError | _ -> NotImplemented
+let litres_of_sexp = function
+  | L [A "val"; v] -> LVal (pyval_of_sexp v)
+  | A "fail" -> LFail
+  | L [A "crash"; A n] -> LCrash (crash_of_name n)
+  | x -> failwith ("bad litres " ^ to_string x)
+let lit_table_of_sexp = function
+  | L items -> List.map (function L [k; r] -> (str_atom k, litres_of_sexp r) | y -> failwith ("bad lit entry " ^ to_string y)) items
+  | x -> failwith ("bad lit table " ^ to_string x)
+
+let opt_n = function A "none" -> None | x -> Some (n_of_int (int_atom x))
+
+let sfinal_sexp = function
+  | SDone (d, _) -> L [A "done"; canon_doc d]
+  | SFailed ((d, _), e) -> L [A "failed"; family e; canon_doc d]
+
 let handle (cmd : string) (args : t list) : t option =
   match cmd, args with
   | "mut-skip", _ -> Some (L [A "skip"])
@@ -60,4 +95,8 @@ let handle (cmd : string) (args : t list) : t option =
     let d = node_of_sexp d in
     let ps = List.map (fun p -> (p.pc_parent, p.pc_ref)) (del_order (coords_of_sexp cs)) in
     Some (L [bs (wf_docb d); bs (no_dup_no_disorder d ps); canon_doc (delete_spec d ps)])
+  | "set", [d; cs; v; f; vo; lt; ft] ->
+    let d = node_of_sexp d in
+    Some (sfinal_sexp (set_value (lit_of_table (lit_table_of_sexp lt)) (fl_of_table ft)
+                         (coords_of_sexp cs) (pyval_of_sexp v) (fmt_of_sym f) (opt_n vo) (init_state d)))
   | _ -> None
